@@ -1,8 +1,29 @@
 #!/usr/bin/env python3
-import json, sys
-pid, n = sys.argv[1], sys.argv[2] if len(sys.argv) > 2 else "3"
+"""tools/mutant_prompt.py <ID> [n] [round]  - brief for a mutant sub-agent (property text only, nothing from /verif's checks).
+For round >= 2 the brief lists one-line descriptions of the changes earlier rounds produced, so that new ones differ."""
+import glob, json, sys
+pid = sys.argv[1]
+n = sys.argv[2] if len(sys.argv) > 2 else "3"
+rnd = int(sys.argv[3]) if len(sys.argv) > 3 else 1
 props = {json.loads(l)["id"]: json.loads(l) for l in open("/verif/properties.jsonl")}
 p = props[pid]
 t = open("/verif/tools/mutant_prompt.txt").read()
-print(t.format(WT=f"/tmp/mut-{pid}", ID=pid, TITLE=p["title"], STATEMENT=p["statement"],
-               QUANT=p["quantifier"]["text"], FILES=", ".join(p["anchors"]["files"]), N=n))
+wt = f"/tmp/mut{rnd if rnd > 1 else ''}-{pid}"
+out = t.format(WT=wt, ID=pid, TITLE=p["title"], STATEMENT=p["statement"],
+               QUANT=p["quantifier"]["text"], FILES=", ".join(p["anchors"]["files"]), N=n)
+if rnd > 1:
+    prior = []
+    for d in sorted(glob.glob(f"/verif/seeded/{pid}-*/meta.json")):
+        m = json.load(open(d))
+        s = " ".join(str(m.get("summary", "")).split())[:330]
+        need = " ".join(str(m.get("needs", "")).split())[:300]
+        prior.append(f"- {s} NEEDS: {need}")
+    out += ("\n\nIMPORTANT - later round: other engineers have ALREADY produced the following mutants for this property. Yours must be clearly DIFFERENT: "
+            "a different function or mechanism, a different clause of the property statement, and a different manifestation condition (do not produce variations of these). "
+            "Prefer clauses of the statement and anchor files that the list below does not touch yet, and prefer bugs that need a multi-step history, a fault at a particular point, "
+            "a particular thread interleaving, or two cooperating sites. Changes that only affect compile-time diagnostics/warnings do not count: the break must be observable in the behaviour the statement describes:\n"
+            + "\n".join(prior) + "\n")
+out += ("\nKnown about the existing suite (not caused by your change): `web_ide_integration::web_ide_shell_serves_local_hashed_assets_without_cdn_dependency` fails on the unmodified tree; "
+        "`debug_stepping::breakpoint_set_while_running_hits_on_subsequent_cycle` occasionally hangs when the machine is loaded (kill that test binary and re-run `--test debug_stepping` alone); "
+        "a few timing tests (names containing `budget`, `performance_gates`, `scales_roughly_linearly`, `sleeps_faster`) are load-sensitive.\n")
+print(out)
